@@ -278,6 +278,9 @@ pub fn walk(s: &Snap, cfg: &WalkCfg, mon: Option<&MonState>) -> Vec<(String, Str
         }
         if i > 0 && c.size <= t.fwd[i - 1].size {
             bad("chunk_not_larger_than_predecessor", format!("chunk {} size {} after {}", i, c.size, t.fwd[i - 1].size));
+        } else if i > 0 && c.size + 16 < 2 * t.fwd[i - 1].size {
+            // C12 (the callers route this signature to that property): growth at least doubles, less 16 bytes
+            bad("later_chunk_smaller_than_twice_previous", format!("chunk {} size {} after {} (twice is {})", i, c.size, t.fwd[i - 1].size, 2 * t.fwd[i - 1].size));
         }
         if let Some(m) = mon {
             if m.containing(c.chunk_start, c.size).is_none() {
